@@ -24,6 +24,9 @@ func contractServes(c *Contract, prop string) bool {
 	if c.Inline || c.Assumed {
 		return false // loop annotations for a body that is verified inside its callers only
 	}
+	if prop == "C16" && c.Flags["noC16"] != "" {
+		return false // declared outside the access discipline (the reason is the flag's text; listed in DESIGN.md)
+	}
 	if prop == "C16" {
 		return true // the access discipline (data-race freedom) is checked in every function under contract
 	}
